@@ -45,6 +45,11 @@ class RoutingFile(object):
         self.sides.setdefault(side, []).append(data)
         self.order.append((side, data))
 
+    def writelines(self, lines):
+        # io.IOBase.writelines: one write() call per item, nothing atomic about it
+        for line in lines:
+            self.write(line)
+
     def flush(self):
         pass
 
@@ -204,6 +209,11 @@ def _e1_shards(tier):
     for rev in (0, 1):
         for idtext in (0, 1):
             shards.append({"N": N if tier == "quick" else 5, "D": D, "handoff": 1, "reverse_sides": rev, "idtext": idtext})
+    # re-entering the current action's context()/run(); hand-offs whose work runs after the program's blocks ended
+    for extra in ({"reenter": 1}, {"reenter": 1, "reenter_style": 1}, {"deferred": 1, "handoff": 1}, {"deferred": 1, "reverse_sides": 1}):
+        base = dict(extra, N=N if tier == "quick" else 5, D=D)
+        for pre in enumerate_prefixes(body_E1, "X", {}, base, 2):
+            shards.append(dict(base, prefix=pre))
     # free styles, short programs
     base = {"free": 1, "N": 2 if tier == "quick" else 3, "D": 2}
     for pre in enumerate_prefixes(body_E1, "X", {}, base, 2 if tier == "quick" else 3):
@@ -223,7 +233,7 @@ OBLIGATIONS = [
         twin=[{"N": 4, "D": 3, "twin_label": "failed-nested"}],
         timeout={"quick": 100, "thorough": 900},
         bounds={
-            "quick": "all op sequences (open/close/message/raise-caught-j-levels-out) of <= 4 ops, depth <= 3, under 20 style profiles (baseline + every single-dimension variation of open style(6)/message style(5)/exception class(8)/extra finish(3)); hand-offs with separate files, both merge orders, bytes/text ids; every <= 2-op program with per-step free styles",
+            "quick": "all op sequences (open/close/message/raise-caught-j-levels-out) of <= 4 ops, depth <= 3, under 20 style profiles (baseline + every single-dimension variation of open style(6)/message style(5)/exception class(8)/extra finish(3)); hand-offs with separate files, both merge orders, bytes/text ids; re-entry of the current action's context()/run(); deferred hand-offs (id made inside an action, work logged after it ended); every <= 2-op program with per-step free styles",
             "thorough": "<= 6 ops, depth <= 4 under the same 20 profiles; hand-offs <= 5 ops; free styles <= 3 ops",
         },
     ),
